@@ -240,6 +240,63 @@ func detectorExistential(c *Ctx, f *ssa.Function, m string) {
 		}
 		r.Require(!early, "A7.detector-exhaustive", fmt.Sprintf("%s|return%d", fn(f), i), pos(c, ret), "a "+m+" transaction detector answers false only after every message was inspected", "a false result is returned from inside the loop over the messages (decided on one message)")
 	}
+	detectorMonotone(c, f, m, 0)
+}
+
+// detectorMonotone (A7.detector-monotone): once one message of the transaction has been recognised as a fee-bearing
+// message of the module, the detector's answer (bool result resIdx) is true — whatever the later messages are. Decided
+// on the SSA form: from the edge on which a message is recognised, no return can hand back a value that may be false:
+// a constant true, or a flag whose every later assignment is again true (`found = true`; `found = found || ok` with
+// the branch on ok), is fine; a flag re-assigned from each message in turn (`is = isFee(msg)`) is decided by the LAST
+// message, so [fee message, other message] is waved through unchecked.
+func detectorMonotone(c *Ctx, f *ssa.Function, m string, resIdx int) {
+	w, r := c.W, c.R
+	match := w.EstablishedEdges(f, func(p ir.Pred) bool { return isModuleTxPred(c, p, m) }, 3)
+	if len(match) == 0 {
+		r.Undecided("A7.detector-monotone", fn(f), w.Pos(f.Pos()), "the place where a message is recognised as a "+m+" fee-bearing message is a branch of the detector", "no such branch found (the recognition result flows on as a value)")
+		return
+	}
+	reach := func(from *ssa.BasicBlock, to *ssa.BasicBlock) bool {
+		return from == to || len(to.Instrs) > 0 && ir.ReachesFrom(f, from, 0, to.Instrs[0], ir.Cut{})
+	}
+	bad := ""
+	for e := range match {
+		b := f.Blocks[e[0]]
+		s := b.Succs[e[1]]
+		var mayBeFalse func(v ssa.Value, seen map[ssa.Value]bool) bool
+		mayBeFalse = func(v ssa.Value, seen map[ssa.Value]bool) bool {
+			switch x := v.(type) {
+			case *ssa.Const:
+				return x.Value == nil || x.Value.String() != "true"
+			case *ssa.Phi:
+				if seen[x] {
+					return false
+				}
+				seen[x] = true
+				if !reach(s, x.Block()) {
+					return true // computed before the recognition and not since: unknown
+				}
+				for i, op := range x.Edges {
+					pred := x.Block().Preds[i]
+					taken := reach(s, pred) || pred == b && x.Block() == s
+					if taken && mayBeFalse(op, seen) {
+						return true
+					}
+				}
+				return false
+			}
+			return true // any other value is computed from a (later) message or unknown
+		}
+		for _, ret := range ir.Returns(f) {
+			if resIdx >= len(ret.Results) || !reach(s, ret.Block()) {
+				continue
+			}
+			if mayBeFalse(ret.Results[resIdx], map[ssa.Value]bool{}) {
+				bad = "after a message was recognised at " + w.InstrPos(b.Instrs[len(b.Instrs)-1]) + " the return at " + w.InstrPos(ret) + " can still answer false"
+			}
+		}
+	}
+	r.Require(bad == "", "A7.detector-monotone", fn(f), w.Pos(f.Pos()), "a "+m+" transaction detector answers true once any message of the transaction is a fee-bearing "+m+" message", bad)
 }
 
 func decoratorOrder(c *Ctx) {
